@@ -565,6 +565,32 @@ pub fn typed_probe(r: &crate::gen::Rendered, t: &mut Tape, st: &mut Stats) -> Re
             }
         }
     }
+    // the root itself asked for as the wrong type (plainly, as Option<_>, through a newtype struct):
+    // the error is born at the root, where no enclosing layer could add a location later
+    for root_modes in [&[0u8][..], &[1], &[2], &[2, 1], &[3]] {
+        for (who, res) in [
+            ("toml::from_str", Walker { rest: &[], actual: "table", modes: root_modes }.deserialize(toml::de::Deserializer::new(text)).map_err(|e| (e.message().to_string(), e.span(), e.to_string()))),
+            (
+                "toml_edit::de::from_str",
+                text.parse::<toml_edit::de::Deserializer>()
+                    .map_err(|e| (e.message().to_string(), e.span(), e.to_string()))
+                    .and_then(|d| Walker { rest: &[], actual: "table", modes: root_modes }.deserialize(d).map_err(|e| (e.message().to_string(), e.span(), e.to_string()))),
+            ),
+        ] {
+            st.class("typed.root");
+            match res {
+                Ok(()) => return Err(Failure::new("typed", format!("{who}: decoding the root table as a string succeeded"), case())),
+                Err((msg, span, rendered)) => {
+                    if msg.trim().is_empty() {
+                        return Err(Failure::new("typed-message", format!("{who}: empty message for a mismatch at the root"), case()));
+                    }
+                    if span.is_none() || !rendered.starts_with("TOML parse error at line ") {
+                        return Err(Failure::new("typed-span", format!("{who}: a type mismatch at the document root (asked for through modes {root_modes:?}) is not located although the source text is available: span {span:?}, rendered {rendered:?}"), case()));
+                    }
+                }
+            }
+        }
+    }
     // a value cloned out of a parsed document keeps its spans but no source text travels with it:
     // the error is located by key path, as for any input without text
     if let (Some(Seg::Key(k0)), Ok(im)) = (path.first(), toml_edit::ImDocument::parse(text.as_str())) {
